@@ -87,9 +87,21 @@ fn ec_fields(t: &SolarTime) -> (i64, i64, i64, i64, i64, i64) {
 fn compositions(ctx: &Ctx, sink: &mut Sink) {
   let mut rng = ctx.rng(901);
   let n = if ctx.quick() { 15000 } else { 90000 };
+  // the early centuries between the reform seams (the seams themselves, AD 9, 24-25 and 237-240, are C02 findings, not
+  // eight-character defects): year 1 from the first day every view supports, AD 10-23 where the lunar months run early
+  let early: Vec<(i64, i64)> = [((1, 1, 7), (8, 12, 1)), ((9, 2, 1), (23, 12, 1)), ((25, 3, 1), (236, 12, 1)), ((240, 3, 1), (259, 12, 31))].iter().filter_map(|(a, b)| {
+    let ja = catch(|| jdn_of(tyme4rs::tyme::solar::SolarDay::from_ymd(a.0, a.1, a.2).get_julian_day().get_day()).0)?;
+    let jb = catch(|| jdn_of(tyme4rs::tyme::solar::SolarDay::from_ymd(b.0, b.1, b.2).get_julian_day().get_day()).0)?;
+    Some((ja, jb))
+  }).collect();
   for k in 0..n {
-    // from AD 260 on: the reform seams of AD 9-25 and 236-240 are C02 findings, not eight-character defects
-    let j = rng.range(1816000, 5373484 - 800);
+    // one in ten instants from the early centuries, the rest from AD 260 on
+    let j = if k % 10 == 9 && !early.is_empty() {
+      let (a, b) = early[(k / 10) as usize % early.len()];
+      rng.range(a, b)
+    } else {
+      rng.range(1816000, 5373484 - 800)
+    };
     let h = if k % 4 == 0 { *rng.pick(&[0i64, 23, 22, 1]) } else { rng.range(0, 23) };
     let t = match time_at(j, h, rng.range(0, 59), rng.range(0, 59)) {
       Some(t) => t,
